@@ -16,7 +16,9 @@ DENOM_FAMILIES = [
 ]
 EXTRA = ["utaura", "contract3", "contract4", "contract40", "uatom", "aaa", "aaaa", "aaab", "zzz",
          # denoms are case-sensitive; real IBC vouchers carry upper-case hex
-         "ibc/A1B2", "ibc/a1b2", "ibc/A1b2C3", "IBC/a1b2", "ibc/27394FB092D2ECCD56123C74F36E4C1F926001CEADA9CA97EA622B25F41E5EB2", "Uaura"]
+         "ibc/A1B2", "ibc/a1b2", "ibc/A1b2C3", "IBC/a1b2", "ibc/27394FB092D2ECCD56123C74F36E4C1F926001CEADA9CA97EA622B25F41E5EB2", "Uaura",
+         # the whole legal charset [a-zA-Z][a-zA-Z0-9/:._-]
+         "st-uatom", "factory/aura1xyz/my-token", "a.b_c", "x:y/z", "gamm/pool/1"]
 
 
 class RegWorld:
